@@ -5,8 +5,10 @@ relative, so no horizon).  Bounded instances are model-checked exhaustively with
 instances every transition is printed and covering walks are executed on a real Relay driven through a
 fake host inside a synctest bubble (real resource manager scopes, real BasicConnMgr, virtual time), with
 the client-visible results and the in-package projection compared after every step and the statement's
-clauses evaluated as L1 monitors on the harness's own ledger.  Two invariants are EXPECTED to fail at
-design level (DESIGN section 9 items 7 and 8); the shortest witnesses are replayed on the real code."""
+clauses evaluated as L1 monitors on the harness's own ledger (fed by observations of the real relay only).
+The two defects found by this check (DESIGN section 9 items 7 and 8, fixed in /repo 6cf8d1a and 6390169)
+are kept as regressions: Caps and TagsRollback are invariants of every instance, and the shortest failing
+histories of the old code are replayed as explicit walks on the real relay."""
 import collections
 import concurrent.futures as cf
 import json
@@ -17,8 +19,8 @@ from lib.common import MachineryError, classify_mismatches, log
 
 PKG = "./p2p/protocol/circuitv2/relay"
 
-INV = ("INVARIANTS TypeOK CapsCounted CountedAreLive ReservationSound CircuitSound MaxCircuits Rollback "
-       "TagsWhileReserved Limits HandshakeBounded")
+INV = ("INVARIANTS TypeOK Caps CapsCounted CountedAreLive LiveAreCounted TagsRollback ReservationSound CircuitSound "
+       "MaxCircuits Rollback TagsWhileReserved Limits HandshakeBounded")
 PROPS = "PROPERTIES ConnectOnlyIfAllowed GrantOnlyIfAllowed DeliveredWithinLimit EndedMeansRolledBack"
 
 ALL_FAULTS = ("mem", "badpeer", "open", "svc", "smem", "swrite", "reset", "wrongtype", "nonok", "h_svc", "h_mem", "h_bad")
@@ -108,18 +110,6 @@ def _exhaustive(args):
     return name, r.distinct, r.generated, r.wall
 
 
-def _expect_violated(args):
-    """The two design-level findings: TLC must find the invariant violated (else the model no longer
-    contains the quirk and the run is vacuous for it)."""
-    ctx, (name, consts), invariant = args
-    cfg = _cfg(consts, [(INV, "INVARIANTS " + invariant), (PROPS, "")])
-    r = tlc.run(ctx, "C11_MC", "gen_%s_%s.cfg" % (name, invariant), cfg_text=cfg, workers=1, timeout=600,
-                name="x" + name + invariant)
-    if r.ok or r.violated != invariant:
-        raise MachineryError("%s is not violated in instance %s (got %s)" % (invariant, name, r.violated))
-    return invariant, r.depth
-
-
 def _edge_stats(g):
     st = collections.Counter()
     for sk, op, _t in g.edges:
@@ -165,49 +155,35 @@ def _edge_stats(g):
 UP, CLOSED, PH, RSVP, CONS, CIRC, TAGR, TAGH, SVC, ATT, GL = range(11)
 NONE = -9
 
-
-def _caps_bad(st, consts, conf):
-    """The invariant Caps of the spec, re-evaluated on a printed state (witness search only; the design-level
-    verdict is TLC's own run of the invariant)."""
-    live = [p for p, r in st[RSVP].items() if r != NONE and r >= 0]
-    if len(live) > int(consts["MaxRes"]):
-        return True
-    by_ip, by_asn = collections.Counter(), collections.Counter()
-    for p in live:
-        a = conf["links"][st[GL][p]][1]
-        by_ip[a] += 1
-        if conf["asn"].get(a):
-            by_asn[conf["asn"][a]] += 1
-    return any(v > int(consts["MaxPerIP"]) for v in by_ip.values()) or any(v > int(consts["MaxPerASN"]) for v in by_asn.values())
-
-
-def _tags_bad(st, _consts, _conf):
-    return any(t and st[RSVP][p] == NONE for p, t in st[TAGR].items())
+# The shortest histories on which the code before 6cf8d1a / 6390169 violated the statement (found by this check
+# as TLC counterexamples of Caps / TagsRollback).  Replayed on the real relay in every run: (instance, name, ops);
+# an op is (action, link[, ab]).  The last grant of each caps history must now be refused.
+REGRESSIONS = (
+    ("rsvp", "caps-after-refused-refresh-ip",
+     (("up", "a1"), ("up", "a3"), ("reserve", "b1"), ("reserve", "a3"), ("reserve", "a1"), ("reserve", "a2"))),
+    ("rsvp", "caps-after-refused-refresh-ip-unseen",
+     (("up", "a1"), ("up", "a3"), ("reserve", "b1"), ("reserve", "a3"), ("reserve", "a1", True), ("reserve", "a2"))),
+    ("asn", "caps-after-refused-refresh-noip-asn",
+     (("up", "a1"), ("reserve", "a1"), ("reserve", "n1"), ("up", "a3"), ("reserve", "a3"))),
+    ("rsvp", "tag-after-disconnect-with-limited-connection",
+     (("up", "a3"), ("up", "r3"), ("reserve", "a3"), ("down", "a3"))),
+)
 
 
-def _witness(g, bad):
-    """Shortest walk from the initial state to a state satisfying bad()."""
-    prev = {}
-    dq = collections.deque()
-    for i in g.inits:
-        prev[i] = None
-        dq.append(i)
-    while dq:
-        u = dq.popleft()
-        if bad(g.states[u]):
-            path = []
-            while prev[u] is not None:
-                pu, ei = prev[u]
+def _follow(g, ops, what):
+    """The walk of the printed graph that performs the given requests from the initial state."""
+    cur = g.inits[0]
+    path = []
+    for o in ops:
+        for ei in g.out.get(cur, ()):
+            op = g.edges[ei][1]
+            if op["name"] == o[0] and op.get("l") == o[1] and bool(op.get("ab")) == (len(o) > 2 and o[2]):
                 path.append(ei)
-                u = pu
-            path.reverse()
-            return g._mk(u, path)
-        for ei in g.out.get(u, ()):
-            v = g.edges[ei][2]
-            if v not in prev:
-                prev[v] = (u, ei)
-                dq.append(v)
-    return None
+                cur = g.edges[ei][2]
+                break
+        else:
+            raise MachineryError("regression walk %s: no transition %s in the printed graph" % (what, (o,)))
+    return g._mk(g.inits[0], path)
 
 
 def _replay_instance(args):
@@ -226,11 +202,11 @@ def _replay_instance(args):
     stats = _edge_stats(g)
     hdr = {"name": name, "consts": consts, "conf": conf[0], "edges": g.n_edges(), "states": g.n_states()}
     wit = {}
-    for flag, pred in (("capsOK", _caps_bad), ("tagsOK", _tags_bad)):
-        w = _witness(g, lambda st, pred=pred: pred(st, consts, conf[0]))
-        if w is not None:
-            wit[flag] = [s["op"] for s in w["steps"]]
-            graph.write_behaviours(os.path.join(beh_dir, "%s-witness-%s.jsonl" % (name, flag)), [w], hdr)
+    for iname, rname, ops in REGRESSIONS:
+        if iname == name:
+            w = _follow(g, ops, rname)
+            wit[rname] = [s["op"] for s in w["steps"]]
+            graph.write_behaviours(os.path.join(beh_dir, "%s-regression-%s.jsonl" % (name, rname)), [w], hdr)
     walks = g.covering_walks(seed=ctx.seed, max_len=50)
     steps = sum(len(w["steps"]) for w in walks)
     graph.write_behaviours(os.path.join(beh_dir, name + ".jsonl"), walks, hdr)
@@ -265,17 +241,14 @@ def run(ctx):
     iters = 400 if thorough else 60
 
     # at most 4 TLC workers at a time: three printing lanes (1 worker each) + one lane for the exhaustive-only
-    # instances and the expected-violated probes; the Go-only parts (and with them the build) run meanwhile
+    # instances; the Go-only parts (and with them the build) run meanwhile
     with cf.ProcessPoolExecutor(max_workers=3) as pr, cf.ProcessPoolExecutor(max_workers=1) as pe, \
             cf.ProcessPoolExecutor(max_workers=1) as pg:
         fg = pg.submit(_go, ctx, "^TestVerifC11Direct$", None, {"VERIF_C11_ITERS": iters})
         fr = [pr.submit(_replay_instance, (ctx, i, beh_dir)) for i in rinsts]
-        fx = [pe.submit(_expect_violated, (ctx, rinsts[0], "Caps")),
-              pe.submit(_expect_violated, (ctx, rinsts[0], "TagsRollback"))]
         fe = [pe.submit(_exhaustive, (ctx, i, 2 if len(einsts) > 1 else 1)) for i in einsts]
         rres = [f.result() for f in fr]
         log("C11: graphs and walks done at %.1fs" % ctx.wall())
-        expected = [f.result() for f in fx]
         eres = [f.result() for f in fe]
         direct = fg.result()
         log("C11: forward/burst done at %.1fs" % ctx.wall())
@@ -293,9 +266,13 @@ def run(ctx):
     for k in REQUIRED_KINDS:
         if not tot.get(k):
             raise MachineryError("vacuity guard: no replayed transition of kind %s" % k)
-    for flag in ("capsOK", "tagsOK"):
-        if flag not in wit:
-            raise MachineryError("vacuity guard: no printed state violates %s" % flag)
+    for _i, rname, _ops in REGRESSIONS:
+        if rname not in wit:
+            raise MachineryError("regression walk %s was not generated" % rname)
+    # the caps histories must end in a refusal in the model of the fixed code
+    for rname, v in wit.items():
+        if rname.startswith("caps-") and v["ops"][-1].get("why") == "ok":
+            raise MachineryError("regression walk %s: the model grants the last reservation" % rname)
 
     div = classify_mismatches(ctx, direct, "direct")
     res = _go(ctx, "^TestVerifC11Replay$", inputs=beh_dir)
@@ -303,9 +280,9 @@ def run(ctx):
     if not res["mismatches"] and res["distinct"] < edges_total:
         raise MachineryError("replay executed %d distinct transitions of %d" % (res["distinct"], edges_total))
     log("C11: replay %s; exhaustive %s; %d states, %d transitions generated, %d replay transitions, %d walks, %d steps; "
-        "direct %d scenarios; L2 divergences %d; expected-violated %s"
+        "direct %d scenarios; L2 divergences %d; regression walks %s"
         % ([(r[0], r[1], r[3], r[7]) for r in rres], [(r[0], r[1], r[2], r[3]) for r in eres], states, trans, edges_total,
-           n_walks, res["steps"], direct["replayed"], div, expected))
+           n_walks, res["steps"], direct["replayed"], div, sorted(wit)))
     cov = evidence.mc_coverage(
         states, trans, res["replayed"] + direct["replayed"], res.get("samples") or [], exhaustive=True,
         checker_cmd="tlc C11_MC.tla (template C11_MC.cfg instantiated: printed+replayed %s; exhaustive only %s)" % (
@@ -315,8 +292,7 @@ def run(ctx):
         exhaustive_only={r[0]: {"states": r[1], "transitions": r[2], "tlc_wall_s": r[3]} for r in eres},
         replay_transitions_in_graphs=edges_total, replay_steps_executed=res["steps"],
         replay_distinct_transitions_executed=res["distinct"], replay_transition_kinds=dict(tot),
-        design_level_expected_violations=[{"invariant": e[0], "tlc_depth": e[1]} for e in expected],
-        shortest_witnesses={k: {"instance": v["instance"], "ops": [json.dumps(o, sort_keys=True) for o in v["ops"]]} for k, v in wit.items()},
+        regression_walks={k: {"instance": v["instance"], "ops": [json.dumps(o, sort_keys=True) for o in v["ops"]]} for k, v in wit.items()},
         direct_scenarios=direct["replayed"], direct_steps=direct["steps"], direct_extra=direct.get("extra"),
         divergences_L2=div, notes=ctx.notes[:10], rule=res.get("rule"))
     return {"level": "model_checking", "coverage": cov, "assumptions": [
@@ -331,9 +307,9 @@ def run(ctx):
 
 
 MANIFEST = {
-    "technique": "TLA+ spec (C11_Relay.tla) of the relay's reservation, constraint, connect-handshake, forwarding, disconnect, collection and close logic as the code is (relative time), model-checked exhaustively with TLC on bounded instances; every transition of the replay instances executed on the real Relay through a fake host in a synctest bubble (real rcmgr scopes, real BasicConnMgr, virtual time) with client-visible results and the in-package projection compared after each step; the statement's clauses evaluated as L1 monitors on the harness's own ledger; two design-level invariant failures (expected) replayed as shortest witnesses",
+    "technique": "TLA+ spec (C11_Relay.tla) of the relay's reservation, constraint, connect-handshake, forwarding, disconnect, collection and close logic as the code is (relative time), model-checked exhaustively with TLC on bounded instances; every transition of the replay instances executed on the real Relay through a fake host in a synctest bubble (real rcmgr scopes, real BasicConnMgr, virtual time) with client-visible results and the in-package projection compared after each step; the statement's clauses evaluated as L1 monitors on the harness's own ledger; the failing histories of two repaired defects replayed as regression walks",
     "category": "model_checking",
     "text": "Reservations, caps, ACL, circuit counters and their rollback depend on histories (refresh from another address, disconnect with a limited connection left, expiry vs collection, a failure at each of the sixteen exits of the connect handler, two attempts racing on the per-peer counters, payloads around the data limit). TLC enumerates all of them on bounded instances and checks the clauses as invariants / action properties; covering walks over the complete printed graphs drive the real relay, so each (state, request, fault) combination of the instances is executed and its status code, voucher, delivered bytes, counters, tags and service-scope usage are compared; the monitors judge the real observations alone.",
-    "note": "Trusted: TLC, the fake host and in-memory streams, testing/synctest, the harness ledger. In-package reads (Relay.rsvp, Relay.conns, constraints lists) are L2 except Relay.conns (named by the statement). Known findings: a refused refresh un-counts a live reservation (caps exceeded); disconnected() leaves the relay-reservation tag when a limited connection remains.",
+    "note": "Trusted: TLC, the fake host and in-memory streams, testing/synctest, the harness ledger (fed only by what the real relay sent or did; when the client leaves before the answer, by the answer the relay tried to write). In-package reads (Relay.rsvp, Relay.conns, constraints lists) are L2 except Relay.conns (named by the statement). Found by this check and fixed in /repo: a refused refresh un-counted a live reservation (6cf8d1a); disconnected() left the relay-reservation tag when a limited connection remained (6390169); both kept as invariants of every instance and as explicit regression walks.",
     "engines": [{"name": "C11_Relay", "path": "spec/C11_Relay.tla", "serves_properties": ["C11"], "kind_free_text": "TLA+ spec + TLC exhaustive + full-transition replay under virtual time + L1 ledger monitors + concurrent burst audit"}],
 }
